@@ -87,6 +87,10 @@ func TestVF_C02_Stress(t *testing.T) { c01Stress(t, "C02") }
 func TestVF_C05_Stress(t *testing.T) { c01Stress(t, "C05") }
 func TestVF_C03_Stress(t *testing.T) { c01Stress(t, "C03") }
 
+// C41: the same free-running workload under the race detector, with readers that keep
+// reading the newest offsets (flushed, mid-flush and buffered) while uploads fail and succeed.
+func TestVF_C41_LogStress(t *testing.T) { c01Stress(t, "C41") }
+
 // c01SlowSink is a log sink that takes its time: every record yields the processor a few
 // dozen times, which widens any window the code leaves open around a log call.
 type c01SlowSink struct{ n atomic.Int64 }
@@ -119,6 +123,12 @@ func c01Stress(t *testing.T, focus string) {
 	rounds, opsPer := 14, 5000
 	if vfkit.Tier() == "thorough" {
 		rounds, opsPer = 300, 20000
+	}
+	if focus == "C41" { // race-detector build: an order of magnitude slower
+		rounds, opsPer = 6, 1000
+		if vfkit.Tier() == "thorough" {
+			rounds, opsPer = 120, 3000
+		}
 	}
 	for r := 0; r < rounds; r++ {
 		producers := 3 + int(next()%10)
@@ -166,6 +176,27 @@ func c01Stress(t *testing.T, focus string) {
 			atomic.StoreInt64(&lastPub, pub)
 		}, nil, nil)
 		var wg sync.WaitGroup
+		var readersWG sync.WaitGroup
+		var producersDone atomic.Bool
+		var newest atomic.Int64
+		var reads atomic.Int64
+		if focus == "C41" {
+			for rd := 0; rd < 3; rd++ {
+				readersWG.Add(1)
+				go func(rd int) {
+					defer readersWG.Done()
+					ctx := context.Background()
+					for i := 0; !producersDone.Load(); i++ {
+						o := newest.Load() - int64((i+rd)%7)
+						if o < 0 {
+							o = 0
+						}
+						_, _ = plog.Read(ctx, o, 4096)
+						reads.Add(1)
+					}
+				}(rd)
+			}
+		}
 		per := opsPer / producers
 		for p := 0; p < producers; p++ {
 			wg.Add(1)
@@ -197,6 +228,9 @@ func c01Stress(t *testing.T, focus string) {
 					ranges[res.BaseOffset] = res.LastOffset
 					owner[res.BaseOffset] = p
 					rangesMu.Unlock()
+					if res.BaseOffset > newest.Load() {
+						newest.Store(res.BaseOffset)
+					}
 					if res.LastOffset-res.BaseOffset != int64(len(rs)-1) {
 						violation02.CompareAndSwap(nil, fmt.Sprintf("a batch of %d records was assigned offsets %d..%d", len(rs), res.BaseOffset, res.LastOffset))
 						if focus == "C02" {
@@ -216,6 +250,11 @@ func c01Stress(t *testing.T, focus string) {
 			}(p)
 		}
 		wg.Wait()
+		producersDone.Store(true)
+		readersWG.Wait()
+		if focus == "C41" && reads.Load() > 100 && failEvery > 0 {
+			st.Class("reads-concurrent-with-failing-uploads")
+		}
 		st.Eval()
 		st.Class(fmt.Sprintf("producers-%d", producers))
 		if emptyPublishes.Load() > 0 {
